@@ -178,7 +178,7 @@ def expected_items(items):
     """results of the persistent scenario target for the enqueued items, up to the first poison"""
     out = []
     for x in items:
-        if x in ('POISON', 'UNPICKLABLE', 'UNSENDABLE', 'STUCK'):
+        if x in ('POISON', 'UNPICKLABLE', 'UNSENDABLE', 'STUCK', 'HUGE'):
             break
         # ['T', v] = enqueue(v, tag='T'): a differently shaped input (keyword override of a default)
         out.append(('r', x[1], x[0]) if isinstance(x, list) else ('r', x))
